@@ -18,7 +18,18 @@ def _canon_rows(rows):
     return sorted((tuple(sorted(r.items(), key=lambda kv: kv[0])) for r in rows), key=repr)
 
 
-def evaluate(V, type_, role, c, tworow):
+def _rows_equal(a, b):
+    """harness.rows_equal, but two integers must be exactly equal (its relative tolerance would hide 2^53 + 1 -> 2^53)"""
+    if not harness.rows_equal(a, b):
+        return False
+    for ra, rb in zip(a, b):
+        for (_, va), (_, vb) in zip(ra, rb):
+            if isinstance(va, int) and isinstance(vb, int) and not isinstance(va, bool) and va != vb:
+                return False
+    return True
+
+
+def evaluate(V, type_, role, c, tworow, FORMS=FORMS):
     """run one table in every form -> (per-form outcomes, deviation string or None, groups)"""
     spec = P.cells_table(type_, role, [c], companion_row=tworow)
     outcomes = {}
@@ -34,7 +45,7 @@ def evaluate(V, type_, role, c, tworow):
         if o[0] == "ok":
             rows = _canon_rows(o[1])
             for g in groups:
-                if g[0] == "accept" and harness.rows_equal(g[1], rows):
+                if g[0] == "accept" and _rows_equal(g[1], rows):
                     g[2].append(form)
                     break
             else:
@@ -53,7 +64,7 @@ def evaluate(V, type_, role, c, tworow):
     parts, n_accept = [], 0
     order = {"reject": 0, "raise-non-input-error": 1, "raise-raw-error": 2, "accept": 3}
     for g in sorted(groups, key=lambda g: (order[g[0]], g[2])):
-        names = list(g[2])
+        names = [f for f in g[2] if "@" not in f or f.partition("@")[0] not in g[2]]   # a variant agreeing with its base form is not named
         if all(f in names for f in _TEXT if f in outcomes):
             names = [f for f in names if f not in _TEXT] + ["df-text"]
         names = [P.FAMILY.get(f, f) if f not in _TEXT else f for f in names]
@@ -69,7 +80,7 @@ def evaluate(V, type_, role, c, tworow):
 
 def _brief(outcomes):
     out = []
-    for f in FORMS:
+    for f in FORMS + P.FORMS_EXTRA:
         if f in outcomes:
             o = outcomes[f]
             if o[0] == "ok":
@@ -81,9 +92,9 @@ def _brief(outcomes):
 
 def work(item, rec):
     V = harness.boot()
-    type_, role, c = item
+    type_, role, c, forms = item
     for tworow in (False, True):
-        outcomes, dev, groups = evaluate(V, type_, role, c, tworow)
+        outcomes, dev, groups = evaluate(V, type_, role, c, tworow, forms)
         classes = sorted({g[0] for g in groups})
         rec.case((type_, role, c["cls"], "two-rows" if tworow else "one-row", dev or "+".join(classes)),
                  "deviation" if dev else "all-" + classes[0], nontrivial=len(outcomes) >= 2,
@@ -102,7 +113,8 @@ def work(item, rec):
                           "error, or all accept with equal datapoints]" % (
                               type_, "identifier" if role == "id" else ("nullable measure" if role == "nm" else "non-nullable measure"),
                               c["t"], "two-row" if tworow else "one-row", _brief(outcomes)),
-                          {"type": type_, "role": role, "cell": {"t": c["t"], "cls": c["cls"]}, "tworow": tworow, "deviation": dev})
+                          {"type": type_, "role": role, "cell": {"t": c["t"], "cls": c["cls"]}, "tworow": tworow, "deviation": dev,
+                           "forms": list(forms)})
 
 
 class Check:
@@ -110,7 +122,8 @@ class Check:
     LEVEL = "exploration"
     RULE = ("exhaustive over 8 component types x 3 roles (identifier, nullable measure, non-nullable measure) x the pool of "
             "cell texts of the type x {one-row table, two-row table with a valid companion} ; each table is run in every "
-            "input form that can hold the same content (<= 7). A case is one table; distinct = (type, role, value class, "
+            "input form that can hold the same content (<= 7; thorough: + CSV with a BOM header and CSV / DataFrame / Parquet "
+            "with reversed column order). A case is one table; distinct = (type, role, value class, "
             "table shape, partition of the forms by outcome); non-trivial = at least two forms were executed.")
     ASSUMPTIONS = [
         "a null is written as an empty unquoted CSV field and as a null of the column dtype elsewhere; an empty string "
@@ -119,7 +132,7 @@ class Check:
         "DataFrame / Parquet form so that only the column under test varies",
         "a native form exists only when the text parses to the native value without loss (int64, float64, bool, "
         "datetime64 incl. tz-aware; 'NaN' has no native form because float NaN is pandas' null)",
-        "column order and a BOM header (DESIGN.md mentions them as extra dimensions) are not varied",
+        "column order and a BOM header are varied in the thorough tier only (one extra form each, text columns)",
     ]
 
     def run(self, tier, seed, rec):
@@ -130,10 +143,11 @@ class Check:
             rec.tool_error("docs/data_types.rst could not be parsed: %s" % e)
             return {"exhaustive": False}
         items = []
+        forms = FORMS + (P.FORMS_EXTRA if tier == "thorough" else ())
         for type_ in P.TYPES:
             for role in P.ROLES:
                 for c in P.c18_pool(type_, docs):
-                    items.append((type_, role, c))
+                    items.append((type_, role, c, forms))
         items = harness.seeded_order(items, seed)
         harness.pmap(work, items, rec)
         for name in ("form:csv", "form:df-native", "form:pq-str", "form:pq-native", "tables_with_an_accepting_form",
@@ -141,11 +155,12 @@ class Check:
             if not rec.counters.get(name):
                 rec.tool_error("non-vacuity: counter %s is zero" % name)
         return {"exhaustive": True, "tables": 2 * len(items), "pool_sizes": {t: len(P.c18_pool(t, docs)) for t in P.TYPES},
-                "forms": list(FORMS)}
+                "forms": list(forms)}
 
     def replay(self, data):
         V = harness.boot()
-        outcomes, dev, _ = evaluate(V, data["type"], data["role"], data["cell"], data["tworow"])
+        outcomes, dev, _ = evaluate(V, data["type"], data["role"], data["cell"], data["tworow"],
+                                    tuple(data.get("forms") or FORMS))
         print("   " + _brief(outcomes))
         print("   deviation now: %s (recorded: %s)" % (dev, data.get("deviation")))
         return dev is not None
